@@ -218,6 +218,118 @@ def ctl_pair(rnd):
     return build(False), build(True)
 
 
+# ---------------------------------------------------------------- the replacement is '?' (audit round 5)
+#
+# The byte scan accepts any printable byte in the place of a hostile one, so a sanitiser that writes '_' or ' ' for some
+# class of bytes, or drops them, passes it.  The property says they "are replaced by '?'": an archive whose header strings
+# hold hostile bytes and the same archive with a literal '?' in the place of each of them must print the same bytes in
+# every mode whose output depends on the names only through printing them (list, test, print, the dry runs -- nothing is
+# created, so it does not matter that two names may fall together).  Bytes with a meaning for the parser (NUL, '/',
+# backslash, '|', 0xFF) are not used inside the strings; nothing else has one ('?' is neither a letter nor a separator).
+
+QM_TABLE = bytes(i if 0x20 <= i < 0x7f else 0x3f for i in range(256))
+QM_MODES = ["l", "lv", "v", "vv", "lq2", "vq1", "t", "tq1", "tn", "xn", "en", "pn", "p", "pq", "xnq1", "vvq0"]
+QM_STRUCT = b"\0/\\|\xff"
+UTF8_SAMPLES = [b"caf\xc3\xa9", b"\xc2\xa0", b"\xdf\xbf", b"\xe3\x81\x82\xe3\x81\x84", b"\xe2\x80\xae", b"\xef\xbb\xbf", b"\xf0\x9f\x98\x80",
+                b"na\xc3\xafve \xc3\x9cber", b"\xc2\x9b31m", b"\xd0\x9f\xd1\x80", b"\xc3\xa9\xc3\xa8\xc3\xaa"]
+
+
+def qm_bytes(rnd, n):
+    while True:
+        b = bytes(c for c in hostile(rnd, n + 3) if c not in QM_STRUCT)[:n]
+        if b and b not in (b".", b".."):
+            return b
+
+
+def qm_spec_random(rnd):
+    spec = []
+    for i in range(rnd.randrange(1, 5)):
+        kind = rnd.choice(["file", "file", "dir", "symlink"])
+        spec.append({"lv": rnd.randrange(4), "kind": kind,
+                     "method": b"-lh0-" if kind == "file" and (i == 0 or rnd.random() < 0.6) else b"-lhd-" if kind != "file" else b"-l" + qm_bytes(rnd, 3),
+                     "name": qm_bytes(rnd, rnd.choice([1, 3, 12, 30])), "comps": [qm_bytes(rnd, rnd.choice([1, 4])) for _ in range(rnd.randrange(0, 3))],
+                     "target": qm_bytes(rnd, rnd.choice([1, 5, 20])), "ug": rnd.random() < 0.3, "user": qm_bytes(rnd, 6), "group": qm_bytes(rnd, 6),
+                     "data": b"A" * rnd.choice([0, 3, 40]), "os": rnd.choice([ord('U'), ord('U'), 0, ord('M'), ord('m')])})
+    return spec
+
+
+def qm_specs_systematic():
+    """every byte value 0x01..0xFE (but the structural ones) in a file name, a path component, a link target and the middle of
+    a later member's method field; well-formed UTF-8 sequences of two, three and four bytes"""
+    vals = [c for c in range(1, 256) if c not in QM_STRUCT]
+    specs = []
+    for k in range(0, len(vals), 24):
+        chunk = bytes(vals[k:k + 24])
+        lv = (k // 24) % 4
+        sp = [{"lv": lv, "kind": "file", "method": b"-lh0-", "name": b"n" + chunk, "comps": [], "target": b"", "ug": False, "user": b"", "group": b"",
+               "data": b"AAA", "os": ord('U')},
+              {"lv": lv, "kind": "dir", "method": b"-lhd-", "name": b"", "comps": [b"c" + chunk[:12], chunk[12:] + b"d"], "target": b"", "ug": False,
+               "user": b"", "group": b"", "data": b"", "os": ord('U')},
+              {"lv": lv, "kind": "symlink", "method": b"-lhd-", "name": b"s" + chunk[:8], "comps": [], "target": b"t" + chunk, "ug": False, "user": b"",
+               "group": b"", "data": b"", "os": ord('U')}]
+        for j in range(0, len(chunk), 3):
+            sp.append({"lv": lv, "kind": "file", "method": b"-" + (chunk[j:j + 3] + b"xxx")[:3] + b"-", "name": b"m%d" % j, "comps": [], "target": b"",
+                       "ug": False, "user": b"", "group": b"", "data": b"", "os": ord('M')})
+        specs.append(sp)
+    for u in UTF8_SAMPLES:
+        specs.append([{"lv": lv, "kind": kind, "method": b"-lh0-" if kind == "file" else b"-lhd-", "name": u, "comps": [u] if kind != "file" else [],
+                       "target": u + b"/" + u, "ug": False, "user": b"", "group": b"", "data": b"AA" if kind == "file" else b"", "os": ord('U')}
+                      for lv, kind in ((2, "file"), (1, "dir"), (0, "symlink"), (3, "file"))])
+    return specs
+
+
+def spec_archive(spec, tr):
+    """the archive of a description (as in ctl_pair); tr: translation table applied to every header string, or None"""
+    out = b""
+    x = (lambda b: b.translate(tr)) if tr is not None else (lambda b: b)
+    for m in spec:
+        lv, kind = m["lv"], m["kind"]
+        data = m["data"] if kind == "file" else b""
+        name, comps, target = x(m["name"]), [x(c) for c in m["comps"]], x(m["target"])
+        if kind == "dir" and not comps:
+            comps = [x(b"d\x01")]
+        exts, inname, area = [], None, None
+        if lv in (0, 1):
+            inname = b"".join(c + b"\\" for c in comps) + (b"" if kind == "dir" else name)
+            if kind == "symlink":
+                inname += b"|" + target
+            inname = inname[:200]
+            if lv == 1:
+                if kind == "symlink":
+                    exts.append(P_LINK)
+                if m["ug"]:
+                    exts += [(0x52, x(m["group"])), (0x53, x(m["user"]))]
+            elif kind == "symlink":
+                area = bytes([ord('U'), 0]) + struct.pack("<I", 1) + struct.pack("<HHH", 0o120777, 1, 2)
+        else:
+            if comps:
+                exts.append((2, b"".join(c + b"\xff" for c in comps)))
+            if kind == "symlink":
+                exts += [P_LINK, (1, name + b"|" + target)]
+            elif kind == "file":
+                exts.append((1, name))
+            if m["ug"]:
+                exts += [(0x52, x(m["group"])), (0x53, x(m["user"])), (0x51, struct.pack("<HH", 1, 2))]
+        out += _hdr(x(m["method"]), exts, data, lv, name=inname, os_=m["os"], area=area)
+    return out + b"\0"
+
+
+def qmark_cases(rnd, quick):
+    """[(archive, mode, stdin, family, twin)]"""
+    res = []
+    sysm = qm_specs_systematic()
+    for sp in sysm:
+        a, a2 = spec_archive(sp, None), spec_archive(sp, QM_TABLE)
+        for mode in (rnd.sample(QM_MODES, 3) if quick else QM_MODES):
+            res.append((a, mode, b"", "qm", a2))
+    for _ in range(30 if quick else 1200):
+        sp = qm_spec_random(rnd)
+        a, a2 = spec_archive(sp, None), spec_archive(sp, QM_TABLE)
+        for mode in rnd.sample(QM_MODES, 2 if quick else 8):
+            res.append((a, mode, b"", "qm", a2))
+    return res
+
+
 def run(ctx):
     rnd = random.Random(ctx.seed * 433494437 + 18)
     cb = CBuild(PID)
@@ -283,6 +395,8 @@ def run(ctx):
             for mode in rnd.sample(MODES + ["tn"], 3 if ctx.quick else 8):
                 extra.append((a, mode, b"y\n" * 20, "ctl", a2))
 
+        extra += qmark_cases(rnd, ctx.quick)
+
         def run_one(k, a, mode, si):
             d = os.path.join(scratch, "x%d" % k)
             os.makedirs(d, exist_ok=True)
@@ -332,12 +446,15 @@ def run(ctx):
                 for stream, d1, d2 in (("stdout", out, tw[1]), ("stderr", err, tw[2])):
                     if d1 != d2:
                         k = next((j for j, (x, y) in enumerate(zip(d1, d2)) if x != y), min(len(d1), len(d2)))
-                        viol.append({"property": PID, "kind": "archive-control-character-in-output", "mode": mode, "stream": stream,
+                        viol.append({"property": PID, "kind": "archive-control-character-in-output" if fam_ == "ctl" else "hostile-byte-not-replaced-by-question-mark",
+                                     "mode": mode, "stream": stream, "family": fam_,
                                      "what": "the archive's TAB / LF / CR bytes do not come out as '?': the output differs from that of the "
-                                             "same archive with the control bytes 1 / 2 / 3 in their place",
+                                             "same archive with the control bytes 1 / 2 / 3 in their place" if fam_ == "ctl" else
+                                             "the output differs from that of the same archive with a literal '?' in the place of every byte of "
+                                             "its header strings that is not printable ASCII",
                                      "offset": k, "context": d1[max(0, k - 40):k + 20].decode("latin1"),
                                      "twin_context": d2[max(0, k - 40):k + 20].decode("latin1"),
-                                     "archive_hex": a.hex(), "twin_hex": twin.hex(), "stdin_hex": si.hex(), "sig": "ctl:%s" % mode[0]})
+                                     "archive_hex": a.hex(), "twin_hex": twin.hex(), "stdin_hex": si.hex(), "sig": "%s:%s" % (fam_, mode[0])})
                         break
         dist.update({"message: " + k: v for k, v in seen_msg.items()})
         viol.sort(key=lambda v: (v.get("kind") == "tool-abnormal-termination", len(v.get("archive_hex", ""))))
